@@ -70,6 +70,9 @@ pub enum Outcome {
 }
 
 pub fn silence_panics() {
+    if std::env::var_os("VERIF_SHOW_PANICS").is_some() {
+        return;
+    }
     std::panic::set_hook(Box::new(|_| {}));
 }
 
@@ -98,9 +101,11 @@ pub fn run_real(src: &str, path: Option<&str>, o: Opts) -> Outcome {
 
 pub fn outcome_sexp(o: &Outcome) -> Sexp {
     match o {
-        Outcome::Ok(text) => match crate::facts::extract(text) {
-            Ok(f) => tagged("ok", vec![f]),
-            Err(e) => tagged("okUnparsable", vec![string(e)]),
+        // a panic of the reader itself is a reader defect; it must not take the whole run down
+        Outcome::Ok(text) => match std::panic::catch_unwind(|| crate::facts::extract(text)) {
+            Ok(Ok(f)) => tagged("ok", vec![f]),
+            Ok(Err(e)) => tagged("okUnparsable", vec![string(e)]),
+            Err(p) => tagged("okUnparsable", vec![string(format!("fact reader panicked: {}", panic_message(p)))]),
         },
         Outcome::Err(e) => match e {
             CreateModuleError::NonConsecutiveBindGroups => tagged("err", vec![atom("nonConsecutive")]),
